@@ -76,7 +76,13 @@ impl Channel {
             let conn = self.connection.get_or_init().await?;
             // The lock is only held while the request is handed to the connection, not
             // until its response arrives: the streams of one channel are multiplexed.
-            let pending = conn.lock().await.send_request(request);
+            let pending = {
+                let mut sender = conn.lock().await;
+                // The connection takes one request at a time from its sender, the next
+                // one has to wait until it has picked the previous one up.
+                std::future::poll_fn(|cx| sender.poll_ready(cx)).await?;
+                sender.send_request(request)
+            };
             pending.await?
         };
 
